@@ -90,6 +90,8 @@ class ArbitrageAgent(HighFrequencyAgent):
             return orders
         index: IndexMarket = market
         spots: List[Market] = index.get_components()
+        if not all(self.is_market_accessible(market_id=m.market_id) for m in spots):
+            return orders
         if not index.is_running or not index.is_all_markets_running():
             return orders
         market_index: float = index.get_index()
